@@ -95,6 +95,9 @@ def run_case(case):
     # arg sets 0 and 1 differ only in the minimally changed parameter set (same agents, same seed)
     sim_args[0] = {**sim_args[0], "params": psets[0]}
     sim_args[1] = {**sim_args[0], "params": psets[2]}
+    # arg set 3 = arg set 0 with the continuous initial states given in SINGLE precision (a data set
+    # loaded as float32): a legitimate call of its own, and the calls after it must be unaffected
+    sim_args.append({**sim_args[0], "init_dtype": "float32"})
     jit_solve = not case.get("jit_false_solve")
     spec = {"desc": desc, "solve_args": psets, "sim_args": sim_args, "jit": jit_solve}
     rundir = os.path.join(bootstrap.VERIF, ".run", f"c09_{os.getpid()}_{case['index']}")
@@ -133,12 +136,20 @@ def run_case(case):
             else:
                 history.append(("sim", int(rng.integers(0, 3))))
         # guarantee repeats and interleaving
-        history += [history[0], history[1 % len(history)], ("solve", 0), ("sim", 0), ("sim", 1), ("sim", 0), ("solve", 0), ("solve", 2), ("solve", 0)]
+        history += [history[0], history[1 % len(history)], ("solve", 0), ("sim", 0), ("sim", 1), ("sim", 0), ("solve", 0), ("solve", 2), ("solve", 0),
+                    ("sim", 3), ("sim", 0), ("sim", 1)]
+        shared_p = None
         for h, (kind, i) in enumerate(history):
             leaf = leafs[h % 4]
             m_before = snapshot_model(model)
             if kind == "solve":
-                p_in = dsl.lcm_params(psets[i], leaf=leaf)
+                if h % 2 == 0:
+                    # ONE params mapping object for the solve calls, edited in place between calls
+                    shared_p = pipeline.update_params_in_place(shared_p, dsl.lcm_params(psets[i], leaf=leaf)) if shared_p is not None else dsl.lcm_params(psets[i], leaf=leaf)
+                    p_in = shared_p
+                    add("calls_with_params_edited_in_place")
+                else:
+                    p_in = dsl.lcm_params(psets[i], leaf=leaf)
                 p_before = snapshot_params(p_in)
                 r = fsolve(p_in)
                 got = {f"solve{i}__t{t}": np.asarray(a, dtype=float) for t, a in enumerate(r)}
@@ -151,13 +162,14 @@ def run_case(case):
                 # the SAME mapping object is handed in on every call with this argument set
                 # (a user keeps one dict of initial states and simulates repeatedly)
                 if "_init_obj" not in a:
-                    a["_init_obj"] = {k: jnp.asarray(np.asarray(v)) for k, v in a["init"].items()}
+                    a["_init_obj"] = {k: jnp.asarray(v) for k, v in golden.typed_init(a).items()}
                 init_in = a["_init_obj"]
                 df = fsim(p_in, initial_states=init_in, seed=int(a["seed"]))
                 got = golden.frame_to_arrays(df, f"sim{i}")
                 add("snapshots_compared")
+                ti = golden.typed_init(a)
                 if sorted(init_in) != sorted(a["init"]) or any(
-                        not np.array_equal(np.asarray(init_in[k]), np.asarray(a["init"][k])) for k in a["init"] if k in init_in):
+                        not np.array_equal(np.asarray(init_in[k]), ti[k]) for k in a["init"] if k in init_in):
                     res["violations"].append({"key": "initial_states_modified", "what": f"call {h} (sim, arg set {i}): the initial_states mapping passed in was modified by the call"})
                     a.pop("_init_obj")
             add("history_calls")
@@ -212,6 +224,12 @@ def run_case(case):
     if hss:
         g = goldens[hss[0]]
         for (kind, i), calls in hist_out.items():
+            if kind == "sim" and i == 3:
+                # the single-precision call only disturbs the history: its own numbers depend on
+                # the leaf TYPES of the params (weakly typed python floats keep float32, 0-d
+                # float64 arrays promote), which are part of the arguments - not compared
+                add("single_precision_calls_made", len(calls))
+                continue
             for h, leaf, got in calls:
                 for k, a in got.items():
                     add("golden_entries")
